@@ -39,7 +39,14 @@ type scenario struct {
 	// (UpdateConfigOptions), before the stream; Trace: per-frame wire tracing is on
 	BuiltT8 time.Duration
 	Trace   bool
-	Frames  []fspec
+	// Second: 0 none; otherwise the connection's first generation ends inside a frame (the fatal event of
+	// the stream, or - after a clean stream - the peer closing after SecondCut bytes of a frame) and a
+	// second generation follows on which the peer stays silent for SecondIdle (> T8) before its first byte
+	Second     int
+	SecondCut  int
+	SecondRST  bool
+	SecondIdle time.Duration
+	Frames     []fspec
 	Cuts    []int // offsets into the stream, ascending, unique, in (0, len)
 	Gaps    []time.Duration
 }
@@ -83,6 +90,15 @@ type harness struct {
 	memTaken   bool
 	lenArrive  time.Duration
 	obsPending int
+
+	// second generation
+	g2Stage  int
+	g2EndAt  time.Duration
+	c2       *refhsms.Conn
+	g2OpenAt time.Duration
+	g2SentAt time.Duration
+	g2Frame  fspec
+	deliv2   []*delivery
 }
 
 func validBody(t *core.Tape, i int) []byte {
@@ -124,6 +140,12 @@ func genScenario(t *core.Tape) scenario {
 		sc.BuiltT8 = []time.Duration{20 * time.Second, 20 * time.Millisecond}[t.Choose("scn", 2)]
 	}
 	sc.Trace = t.Choose("scn", 3) == 0
+	if t.Choose("scn", 3) == 0 {
+		sc.Second = 1
+		sc.SecondCut = []int{1, 2, 4, 6, 13}[t.Choose("scn", 5)]
+		sc.SecondRST = t.Choose("scn", 2) == 1
+		sc.SecondIdle = sc.T8 + []time.Duration{30 * time.Millisecond, 2 * sc.T8}[t.Choose("scn", 2)]
+	}
 	n := 1 + t.Choose("scn", 10)
 	sess := uint16(0xFFFF)
 	for i := 0; i < n; i++ {
@@ -236,8 +258,12 @@ func Build(config string) core.BuildFunc {
 		if sc.BuiltT8 > 0 {
 			t8 = sc.BuiltT8
 		}
+		t5, b0 := 500*time.Second, 400*time.Second
+		if sc.Second != 0 {
+			t5, b0 = 300*time.Millisecond, 100*time.Millisecond
+		}
 		h.r = rig.New(w, rig.Opts{Active: sc.Active, Equip: sc.Equip, T8: t8, TraceTraffic: sc.Trace, T3: 600 * time.Second, T6: 600 * time.Second, T7: 600 * time.Second,
-			T5: 500 * time.Second, BackoffInit: 400 * time.Second, BackoffMult: 1, NoDataHandlers: true, CloseTimeout: 2 * time.Second})
+			T5: t5, BackoffInit: b0, BackoffMult: 1, NoDataHandlers: true, CloseTimeout: 2 * time.Second})
 		r := h.r
 		r.P.AutoSelectRsp = 0
 		r.P.AutoLinktest = true
@@ -279,6 +305,9 @@ func Build(config string) core.BuildFunc {
 					h.memAfter = ms.TotalAlloc
 					h.memTaken = true
 				}
+				if sc.Second != 0 {
+					h.second()
+				}
 
 				return
 			}
@@ -319,7 +348,7 @@ func Build(config string) core.BuildFunc {
 
 		return &core.Scenario{
 			Desc:    h.describe(),
-			Horizon: sum + 60*time.Second,
+			Horizon: sum + 60*time.Second + 4*sc.SecondIdle,
 			Done:    h.done,
 			Final:   h.final,
 			Cleanup: func() { r.Close() },
@@ -341,7 +370,7 @@ func (h *harness) describe() map[string]any {
 		gaps = append(gaps, g.String())
 	}
 
-	return map[string]any{"active": sc.Active, "equip": sc.Equip, "T8": sc.T8.String(), "builtWithT8": sc.BuiltT8.String(), "traceTraffic": sc.Trace, "frames": kinds, "cuts": sc.Cuts, "gaps": gaps}
+	return map[string]any{"active": sc.Active, "equip": sc.Equip, "T8": sc.T8.String(), "builtWithT8": sc.BuiltT8.String(), "traceTraffic": sc.Trace, "second": sc.Second != 0, "secondIdle": sc.SecondIdle.String(), "secondCut": sc.SecondCut, "secondRST": sc.SecondRST, "frames": kinds, "cuts": sc.Cuts, "gaps": gaps}
 }
 
 // wellFormed is the reference acceptance rule for a complete on-wire frame.
@@ -378,7 +407,8 @@ func (h *harness) decodeEntryPoints() (ok bool) {
 	}()
 	try := func(b []byte, what string) bool {
 		want := wellFormed(b)
-		m, err := hsms.DecodeHSMSMessage(append([]byte(nil), b...))
+		bm := append([]byte(nil), b...)
+		m, err := hsms.DecodeHSMSMessage(bm)
 		if (err == nil) != want || (err == nil) != (m != nil) {
 			w.Fail("DECODE_ACCEPT", "DecodeHSMSMessage(%s, %d bytes, header % x): accepted=%v, well-formed=%v (err=%v)", what, len(b), head(b), err == nil, want, err)
 
@@ -387,7 +417,8 @@ func (h *harness) decodeEntryPoints() (ok bool) {
 		if len(b) >= 4 {
 			p := b[4:]
 			wantP := len(p) >= 10 && len(p) <= capLen && p[4] == 0 && definedSType(p[5])
-			m2, err2 := hsms.DecodeHSMSPayload(append([]byte(nil), p...))
+			bp := append([]byte(nil), p...)
+			m2, err2 := hsms.DecodeHSMSPayload(bp)
 			m3, err3 := hsms.DecodeOwnedHSMSPayload(append([]byte(nil), p...))
 			if (err2 == nil) != wantP || (err3 == nil) != wantP || (err2 == nil) != (m2 != nil) || (err3 == nil) != (m3 != nil) {
 				w.Fail("DECODE_ACCEPT", "DecodeHSMSPayload/DecodeOwnedHSMSPayload(%s, %d bytes, header % x): accepted=%v/%v, well-formed=%v", what, len(p), head(b), err2 == nil, err3 == nil, wantP)
@@ -400,6 +431,43 @@ func (h *harness) decodeEntryPoints() (ok bool) {
 					w.Fail("DECODE_ACCEPT", "decoded header differs from the wire header % x", p[:10])
 
 					return false
+				}
+				// the caller re-uses its buffers (with a body of the opposite verdict) before anybody asked
+				// for the body: the messages decoded from them report what was on the wire, on every call
+				d1, ok1 := m.(*hsms.DataMessage)
+				d2, ok2 := m2.(*hsms.DataMessage)
+				d3, ok3 := m3.(*hsms.DataMessage)
+				if ok1 && ok2 && ok3 && len(p) >= 12 && len(p)-12 < 250 {
+					wantErr := ""
+					if e := d3.DecodeErr(); e != nil {
+						wantErr = e.Error()
+					}
+					for _, buf := range [][]byte{bm[4:], bp} {
+						body := buf[10:]
+						if wantErr == "" {
+							for i := range body {
+								body[i] = 0xFD
+							}
+						} else {
+							body[0], body[1] = 0x41, byte(len(body)-2)
+							for i := 2; i < len(body); i++ {
+								body[i] = 'x'
+							}
+						}
+					}
+					for k, d := range []*hsms.DataMessage{d1, d2, d1.WithSessionID(3), d2.WithSystemBytes([4]byte{1, 2, 3, 4}), d1, d2} {
+						got := ""
+						if e := d.DecodeErr(); e != nil {
+							got = e.Error()
+						}
+						if got != wantErr || !bytes.Equal(d.AppendBodyTo(nil), p[10:]) {
+							w.Fail("BODY_ERROR", "%s: the caller re-used the buffer it had passed to %s before the first call for the body; holder %d now reports body error %q and body % x, the frame on the wire had body % x with verdict %q",
+								what, []string{"DecodeHSMSMessage", "DecodeHSMSPayload"}[k%2], k, got, clip(d.AppendBodyTo(nil)), clip(p[10:]), wantErr)
+
+							return false
+						}
+					}
+					w.Probe("decode_buffer_reused_before_first_body_call")
 				}
 			}
 		}
@@ -488,7 +556,11 @@ func head(b []byte) []byte {
 func (h *harness) onData(hi int, m *hsms.DataMessage) {
 	w := h.w
 	d := &delivery{Handler: hi, Hdr: m.HeaderBytes(), Body: m.AppendBodyTo(nil), At: w.Now()}
-	h.deliv = append(h.deliv, d)
+	if h.g2Stage >= 3 {
+		h.deliv2 = append(h.deliv2, d)
+	} else {
+		h.deliv = append(h.deliv, d)
+	}
 	obs := func(who string, mm *hsms.DataMessage) {
 		for k := 0; k < 2; k++ {
 			err := mm.DecodeErr()
@@ -618,6 +690,13 @@ func (h *harness) done() bool {
 	if !h.sent || !h.w.Idle() || h.obsPending > 0 {
 		return false
 	}
+	if h.sc.Second != 0 && (h.fatalKind != "" || h.hasBarrier()) {
+		if h.g2Stage >= 5 {
+			return true
+		}
+		// never stuck: the second generation gets a generous budget after the first one ended
+		return h.g2EndAt > 0 && h.w.Now() > h.g2EndAt+10*time.Second+4*h.sc.SecondIdle
+	}
 	if h.fatalKind != "" {
 		return h.w.Now() > h.dropAt+50*time.Millisecond
 	}
@@ -625,7 +704,167 @@ func (h *harness) done() bool {
 	return h.hasBarrier() || !h.c.Alive()
 }
 
+const barrier2 = 0x7FFFFFF2
+
+// second drives the second generation (monitor context). Stages: 0 wait for the first generation to
+// end inside a frame; 1 wait for the new connection; 2 stay silent for SecondIdle, then start the
+// select handshake; 3 Selected: one data frame cut inside its header (gap T8/2), an idle gap of 2*T8,
+// a Linktest.req barrier; 4 wait for the barrier; 5 finished.
+func (h *harness) second() {
+	w, sc, r := h.w, h.sc, h.r
+	switch h.g2Stage {
+	case 0:
+		if h.fatalKind == "" {
+			if !h.hasBarrier() || !h.c.Alive() {
+				return
+			}
+			// a clean stream: the peer starts one more frame and goes away inside it
+			part := refhsms.Frame(refhsms.DataHeader(0xFFFF, 1, 1, false, 0x2FFFF), refhsms.ASCII("cut short"))[:sc.SecondCut]
+			h.c.SendRaw(part, refhsms.Header{}, nil, false)
+			c := h.c
+			w.Fault("peer-closes-mid-frame")
+			w.After(3*time.Millisecond, "peer-closes-mid-frame", func() {
+				if sc.SecondRST {
+					c.L.RST()
+				} else {
+					c.L.FIN()
+				}
+			})
+		} else if h.c.Alive() {
+			return
+		}
+		r.P.AutoSelectRsp = -1
+		h.g2EndAt = w.Now()
+		h.g2Stage = 1
+		var tick func()
+		tick = func() {
+			if h.g2Stage == 1 {
+				w.After(5*time.Millisecond, "second-connect-tick", tick)
+			}
+		}
+		w.After(20*time.Millisecond, "second-connect-tick", tick)
+	case 1:
+		if sc.Active {
+			if c := r.P.Last(); c != nil && c != h.c {
+				h.c2 = c
+			}
+		} else if r.N.Listening(rig.Addr) && w.Now() >= h.g2EndAt+20*time.Millisecond {
+			h.c2 = r.P.Connect(rig.Addr)
+		}
+		if h.c2 != nil {
+			h.g2OpenAt = w.Now()
+			h.g2Stage = 2
+			w.Probe("second_generation_up")
+			w.After(sc.SecondIdle, "second-idle-over", func() {})
+		}
+	case 2:
+		if w.Now() < h.g2OpenAt+sc.SecondIdle {
+			return
+		}
+		if sc.Active {
+			for _, f := range h.c2.Rx {
+				if f.H.SType == refhsms.STSelectReq {
+					h.c2.SendFrame(refhsms.Header{Session: f.H.Session, SType: refhsms.STSelectRsp, Sys: f.H.Sys}, nil)
+					h.g2Stage = 3
+				}
+			}
+			if h.g2Stage != 3 && !h.c2.Alive() {
+				h.g2Stage = 5
+			}
+		} else {
+			h.c2.SelectReq()
+			h.g2Stage = 3
+		}
+		if h.g2Stage == 3 {
+			w.Fault("idle-gap>T8")
+		}
+	case 3:
+		if !h.c2.Alive() {
+			h.g2Stage = 5
+
+			return
+		}
+		if !r.Selected() || h.c2.L.ToLib().InFlight() != 0 {
+			return
+		}
+		h.g2Frame = fspec{Kind: "data", H: refhsms.DataHeader(0xFFFF, 3, 7, false, 0x30000), Body: refhsms.ASCII("second generation"), BodyValid: true, Data: true}
+		raw := refhsms.Frame(h.g2Frame.H, h.g2Frame.Body)
+		n := len(raw)
+		raw = append(raw, refhsms.Frame(refhsms.Header{Session: 0xFFFF, SType: refhsms.STLinktestReq, Sys: barrier2}, nil)...)
+		h.g2SentAt = w.Now()
+		h.c2.SendRawCut(raw, refhsms.Header{}, nil, true, []int{7, n}, []time.Duration{time.Millisecond, sc.T8 / 2, 2 * sc.T8})
+		w.Fault("idle-gap>T8")
+		h.g2Stage = 4
+	case 4:
+		for _, f := range h.c2.Rx {
+			if f.H.SType == refhsms.STLinktestRsp && f.H.Sys == barrier2 {
+				h.g2Stage = 5
+			}
+		}
+		if !h.c2.Alive() {
+			h.g2Stage = 5
+		}
+	}
+}
+
+// finalSecond: the second generation must not inherit anything from the frame the first one died in.
+func (h *harness) finalSecond(reason string) {
+	w, sc := h.w, h.sc
+	how := "the fatal event of the stream (" + h.fatalKind + ")"
+	if h.fatalKind == "" {
+		how = fmt.Sprintf("the peer closing %d bytes into a frame", sc.SecondCut)
+	}
+	if h.c2 == nil {
+		w.Fail("NO_SECOND", "no second connection within %v of the first one ending at %v (state %v)", w.Now()-h.g2EndAt, h.g2EndAt, h.r.C.State())
+
+		return
+	}
+	c := h.c2
+	if !c.Alive() {
+		at := c.L.A.ClosedAt
+		what := "while the peer had not yet sent a byte on it"
+		if h.g2SentAt > 0 {
+			what = fmt.Sprintf("after the peer started its stream at %v (in-header gap %v, idle gap between frames %v)", h.g2SentAt, sc.T8/2, 2*sc.T8)
+		}
+		w.Fail("IDLE_DROPPED", "second generation (opened %v, after the first one ended inside a frame by %s): the library closed it at %v %s; the peer was silent for %v before its first byte, T8 is %v — an idle connection is never timed out by T8%s",
+			h.g2OpenAt, how, at, what, sc.SecondIdle, sc.T8, h.ctx())
+
+		return
+	}
+	if h.g2Stage < 5 {
+		w.Fail("STUCK", "second generation: the barrier Linktest.req was never answered (stage %d, run ended: %s)%s", h.g2Stage, reason, h.ctx())
+
+		return
+	}
+	for hi := 0; hi < 2; hi++ {
+		n := 0
+		for _, d := range h.deliv2 {
+			if d.Handler == hi {
+				n++
+				if d.Hdr != h.g2Frame.H.Pack() || !bytes.Equal(d.Body, h.g2Frame.Body) {
+					w.Fail("DELIVERY", "second generation, handler %d: header %x body %d bytes, want %x body %d bytes", hi, d.Hdr, len(d.Body), h.g2Frame.H.Pack(), len(h.g2Frame.Body))
+
+					return
+				}
+			}
+		}
+		if n != 1 {
+			w.Fail("DELIVERY", "second generation: handler %d received %d data messages, the peer sent 1%s", hi, n, h.ctx())
+
+			return
+		}
+	}
+	w.Probe("second_generation_clean_after_mid_frame_end")
+}
+
 func (h *harness) final(reason string) {
+	h.finalFirst(reason)
+	if h.w.Viol == nil && h.sc.Second != 0 && h.sent && h.g2Stage >= 1 {
+		h.finalSecond(reason)
+	}
+}
+
+func (h *harness) finalFirst(reason string) {
 	w, sc := h.w, h.sc
 	if !h.sent {
 		w.Fail("HARNESS", "the session was never established (reason %s, state %v)", reason, h.r.C.State())
@@ -685,6 +924,11 @@ func (h *harness) final(reason string) {
 	c := h.c
 	switch h.fatalKind {
 	case "":
+		if sc.Second != 0 && h.g2Stage >= 1 {
+			// the stream was answered up to its barrier (that is what started the second leg); the peer
+			// then closed the connection itself
+			break
+		}
 		if !c.Alive() {
 			w.Fail("DROPPED", "the library closed the link at %v although no in-frame gap exceeded T8=%v and every length field was valid%s", c.EOFAt, sc.T8, h.ctx())
 
@@ -733,7 +977,7 @@ func (h *harness) final(reason string) {
 
 			return
 		}
-		if st := h.r.C.State(); st == hsms.SelectedState {
+		if st := h.r.C.State(); st == hsms.SelectedState && sc.Second == 0 {
 			w.Fail("STATE", "State() is still Selected after the link was dropped")
 
 			return
